@@ -46,6 +46,9 @@ const L_UNARY: u8 = 7;
 const L_TERM: u8 = 8;
 
 pub struct Printer<'a> {
+    /// print postfix-marked application arguments without parentheses (mutants only: the language parses
+    /// them but does not count them as arguments)
+    pub bare_unary_args: bool,
     out: String,
     occs: Vec<Occ>,
     trivia: Option<&'a mut Rng>,
@@ -94,6 +97,7 @@ pub fn ann_map_text(m: &AnnMap) -> String {
 impl<'a> Printer<'a> {
     pub fn new(trivia: Option<&'a mut Rng>) -> Self {
         Printer {
+            bare_unary_args: false,
             out: String::new(),
             occs: Vec::new(),
             trivia,
@@ -326,6 +330,8 @@ impl<'a> Printer<'a> {
                         self.tok("(");
                         self.expr(a, L_STMT);
                         self.tok(")");
+                    } else if self.bare_unary_args && matches!(a, E::Unary { .. }) {
+                        self.expr(a, L_UNARY);
                     } else {
                         self.expr(a, L_TERM);
                     }
@@ -361,7 +367,16 @@ impl<'a> Printer<'a> {
 
 /// Prints one module. `trivia`: insert random blanks, newlines and comments between tokens.
 pub fn print_module(p: &Program, m: usize, trivia: Option<&mut Rng>) -> PrintedModule {
+    print_module_opts(p, m, trivia, false)
+}
+
+pub fn print_program_mutant(p: &Program) -> Vec<PrintedModule> {
+    (0..p.modules.len()).map(|m| print_module_opts(p, m, None, true)).collect()
+}
+
+pub fn print_module_opts(p: &Program, m: usize, trivia: Option<&mut Rng>, bare_unary_args: bool) -> PrintedModule {
     let mut pr = Printer::new(trivia);
+    pr.bare_unary_args = bare_unary_args;
     let mut stmts = Vec::new();
     let mut decl_ranges = Vec::new();
     for (si, s) in p.modules[m].stmts.iter().enumerate() {
